@@ -180,7 +180,7 @@ func (c *Cache) VerifUnsubQueue() interface{} {
 // EventSubscriptions than CacheWorkers may be parked at the same time.
 func (c *Cache) VerifAddWorkers(n int) {
 	for i := 0; i < n; i++ {
-		go c.startWorker(c.inCh)
+		go c.startWorker(c.inCh, c.stopCh)
 	}
 }
 
